@@ -75,15 +75,25 @@ def classify_ts(b, sl, server_ts, mismatch):
     add = sl.find_calls(r"DateTime::<Tz>::checked_add_signed$")
     other_arith = sl.find_calls(r"(TimeDelta|DateTime).*::(checked_add|checked_sub|add|sub|num_\w+|signed_duration_since|timestamp\w*)$|ops::(Add|Sub)::(add|sub)$")
     other_arith = [c for c in other_arith if c not in sub and c not in add]
+    # the operands are the values themselves: the request instant as stored, the server clock and the window as given -
+    # no rounding / truncation to seconds / re-zoning in between (a bound moved by a fraction of a second flips requests
+    # that sit on the edge)
+    ASIS = r"SigV4Authenticator::request_timestamp$|Deref::deref$|Clone::clone$|Borrow::borrow$|DateTime::<Tz>::checked_(sub|add)_signed$|Option::<T>::unwrap_or$|convert::Into::into$|convert::From::from$"
+    altered = [c for c in sl.callee_names() if not re.search(ASIS, c)]
     if has_req and not sub and not add and not other_arith and server_ts not in sl.locals:
-        return "req"
+        return "req" if not altered else None
+
+    def given(o, p):
+        od = b.origin_def(o)
+        return od == ("param", p)
+
     if not has_req and len(sub) == 1 and not add and not other_arith:
         t = sub[0][1]
-        if server_ts in b.slice_op(t["args"][0]).locals and mismatch in b.slice_op(t["args"][1]).locals and mismatch not in b.slice_op(t["args"][0]).locals:
+        if given(t["args"][0], server_ts) and given(t["args"][1], mismatch) and not altered:
             return "min"
     if not has_req and len(add) == 1 and not sub and not other_arith:
         t = add[0][1]
-        if server_ts in b.slice_op(t["args"][0]).locals and mismatch in b.slice_op(t["args"][1]).locals and mismatch not in b.slice_op(t["args"][0]).locals:
+        if given(t["args"][0], server_ts) and given(t["args"][1], mismatch) and not altered:
             return "max"
     if not has_req and not sub and not add and server_ts in sl.locals:
         return "server"
